@@ -11,8 +11,8 @@ import (
 
 // Keys is the shared key alphabet: small, so random documents hit, but covering dot-illegal,
 // escaped, non-ASCII and astral keys.
-var Keys = []string{"a", "b", "c", "d", "aa", "0", "a b", "é", "😀", "a.b", "", "'", "\"", "x\\y", "-", "a\tb", "\n", "é.b", "名 前", "ü-ö$x", "ab", "’", "A"}
-var keyWeights = []int{12, 10, 8, 4, 3, 3, 2, 2, 1, 2, 1, 1, 1, 1, 1, 1, 1, 2, 1, 1, 2, 1, 1}
+var Keys = []string{"a", "b", "c", "d", "aa", "0", "a b", "é", "😀", "a.b", "", "'", "\"", "x\\y", "-", "a\tb", "\n", "é.b", "名 前", "ü-ö$x", "ab", "’", "A", "x\\'y", "\\\"", "\\"}
+var keyWeights = []int{12, 10, 8, 4, 3, 3, 2, 2, 1, 2, 1, 1, 1, 1, 1, 1, 1, 2, 1, 1, 2, 1, 1, 1, 1, 1}
 
 var keyGen = weighted(Keys, keyWeights)
 
@@ -42,6 +42,7 @@ type PathOpts struct {
 	FuncPct        int  // chance of each trailing function on the main path (default 45)
 	OperandFuncPct int  // chance of a function on an operand path (default 12)
 	LongPaths      bool // 3 % of the paths have 6..16 steps
+	NoDeepDocs     bool // no deep spines in the documents (checks whose cost multiplies with the depth)
 	ReuseFuncs     bool // a function name may occur several times in one path (default: each name once, so that a name identifies an occurrence)
 }
 
